@@ -470,7 +470,12 @@ class Reconcile:
             # pure AST node, recurse
 
             if node_parent is not False:  # if coming from in-tree FST then need to put node here since it doesn't match what the in-tree node was, this will replace for all pure AST nodes
-                self.put_node(node, out_parent, pfield)
+                if (isinstance(node, AST)
+                    or not out_parent
+                    or node != (outa := pfield.get(out_parent.a))
+                    or node.__class__ is not outa.__class__
+                ):  # a primitive or None list element (Global.names, kw_defaults) which did not change is left alone
+                    self.put_node(node, out_parent, pfield)
 
             outa = pfield.get(out_parent.a) if out_parent else self.out.a
 
